@@ -298,4 +298,86 @@ theorem inRange_single (sc : SCfg) (find : Oracle) (hml : sc.multiLine = false) 
   simp only
   omega
 
+/-- well-formed event whose haystack the matcher answers sanely -/
+def EventOk (sc : SCfg) (find : Oracle) : Event → Prop
+  | .matched buf rs re _ _ =>
+    rs ≤ re ∧ re ≤ buf.length ∧ Sane (find (cutHaystack sc buf re)) (cutHaystack sc buf re).length
+  | .context _ bytes _ _ =>
+    Sane (find (cutHaystack sc bytes bytes.length)) (cutHaystack sc bytes bytes.length).length
+  | .contextBreak => True
+
+theorem writeBegin_panicked (jc : JsonCfg) (st : JsonState) : (st.writeBegin jc).panicked = st.panicked := by
+  unfold JsonState.writeBegin
+  split <;> rfl
+
+theorem jsonEvent_no_panic (sc : SCfg) (jc : JsonCfg) (find : Oracle) (hml : sc.multiLine = false)
+    (st : JsonState) (ev : Event) (h0 : st.panicked = false) (hok : EventOk sc find ev) :
+    (jsonEvent sc jc find st ev).1.panicked = false := by
+  cases ev with
+  | contextBreak => simpa [jsonEvent] using h0
+  | matched buf rs re off ln =>
+    obtain ⟨hrs, hre, hs⟩ := hok
+    simp only [jsonEvent, jsonMatched, recordMatchesJson]
+    rw [subMatches_of_inRange (inRange_single sc find hml buf rs re hrs hre hs)]
+    simp [writeBegin_panicked, h0]
+  | context k bytes off ln =>
+    simp only [jsonEvent, jsonContext, recordMatchesJson]
+    cases hinv : sc.invert with
+    | false => simp [writeBegin_panicked, h0]
+    | true =>
+      simp only [↓reduceIte]
+      have hin := inRange_single sc find hml bytes 0 bytes.length (Nat.zero_le _) (Nat.le_refl _) hok
+      have hsl : slice bytes 0 bytes.length = bytes := by simp [slice]
+      rw [hsl] at hin
+      rw [subMatches_of_inRange hin]
+      simp [writeBegin_panicked, h0]
+
+theorem jsonEvents_no_panic (sc : SCfg) (jc : JsonCfg) (find : Oracle) (hml : sc.multiLine = false) :
+    ∀ (evs : List Event) (st : JsonState), st.panicked = false → (∀ ev ∈ evs, EventOk sc find ev) →
+      (jsonEvents sc jc find st evs).panicked = false := by
+  intro evs
+  induction evs with
+  | nil => intro st h0 _; simpa [jsonEvents] using h0
+  | cons ev rest ih =>
+    intro st h0 hall
+    rw [jsonEvents_cons]
+    have h1 := jsonEvent_no_panic sc jc find hml st ev h0 (hall ev (by simp))
+    by_cases hc : (jsonEvent sc jc find st ev).2 = true
+    · simp only [hc, ↓reduceIte]
+      exact ih _ h1 (fun e he => hall e (List.mem_cons_of_mem _ he))
+    · simp only [hc, Bool.false_eq_true, ↓reduceIte]
+      exact h1
+
+theorem jsonFinish_panicked (jc : JsonCfg) (st : JsonState) (bc : Nat) :
+    (jsonFinish jc st bc).panicked = st.panicked := by
+  unfold jsonFinish
+  split
+  · rfl
+  · split <;> rfl
+
+theorem jsonBegin_panicked (jc : JsonCfg) : (jsonBegin jc {}).1.panicked = false := by
+  unfold jsonBegin
+  split
+  · rfl
+  · split
+    · rfl
+    · simp [writeBegin_panicked]
+
+/-- **No panic**: in single-line mode, for well-formed events and a sane matcher, `SubMatches::new` never
+slices out of range. -/
+theorem jsonSearch_no_panic (sc : SCfg) (jc : JsonCfg) (find : Oracle) (hml : sc.multiLine = false)
+    (evs : List Event) (bc : Nat) (hall : ∀ ev ∈ evs, EventOk sc find ev) :
+    (jsonSearch sc jc find evs bc).panicked = false := by
+  unfold jsonSearch
+  have h0 := jsonBegin_panicked jc
+  generalize jsonBegin jc {} = b at h0 ⊢
+  obtain ⟨st1, go⟩ := b
+  simp only at h0 ⊢
+  rw [jsonFinish_panicked]
+  by_cases hgo : go = true
+  · simp only [hgo, ↓reduceIte]
+    exact jsonEvents_no_panic sc jc find hml evs st1 h0 hall
+  · simp only [hgo, Bool.false_eq_true, ↓reduceIte]
+    exact h0
+
 end RgVerif.Lemmas.PrinterJsonRun
